@@ -140,7 +140,7 @@ func c03Scenario(s shape, faults []c03Fault, r *vx.Rand) {
 func runC03() {
 	nShapes := 60
 	if run.Thorough() {
-		nShapes = 700
+		nShapes = 600
 	}
 	nShapes = scaled(nShapes)
 	for n := 0; n < nShapes; n++ {
